@@ -53,6 +53,10 @@ type vLink struct {
 	// stalled: the send function blocks (a stream write under flow control
 	// that nobody drains) until the context it was given is cancelled
 	stalled bool
+	// linger: the send function returns only this long after the packet has
+	// been handed over (a stream write that completes late: the answer may
+	// be back before the writer goes on)
+	linger time.Duration
 	// ghost log of everything put on the wire (for monitors)
 	wire [][]byte
 }
@@ -73,6 +77,17 @@ func (l *vLink) push(b []byte) {
 }
 
 func (l *vLink) send(ctx context.Context, b []byte) error {
+	err := l.send1(ctx, b)
+	l.mu.Lock()
+	d := l.linger
+	l.mu.Unlock()
+	if d > 0 && err == nil {
+		time.Sleep(d)
+	}
+	return err
+}
+
+func (l *vLink) send1(ctx context.Context, b []byte) error {
 	if !l.ignoreCancel {
 		select {
 		case <-ctx.Done():
